@@ -41,9 +41,11 @@ PROPS = {
         "level": "proof",
     },
     "C04": {
-        "gens": [{"name": "C04", "quick": 600, "thorough": 6000}],
-        "nontrivial": {"special", "nan"},
-        "rule": ARITH_RULE + "the full class product {-Inf,-fin,-0,+0,+fin,+Inf}^k x 6 modes for Add Sub Mul Quo FMA is enumerated every run; non-trivial = at least one operand is a zero or an infinity",
+        "gens": [{"name": "C04", "quick": 600, "thorough": 6000},
+                 {"name": "divrec", "harness": "kernharness", "quick": 500, "thorough": 3000}],
+        "needs": ["apiharness", "kernharness"],
+        "nontrivial": {"special", "nan", "recursive"},
+        "rule": ARITH_RULE + "the full class product {-Inf,-fin,-0,+0,+fin,+Inf}^k x 6 modes for Add Sub Mul Quo FMA is enumerated every run; 'no other panic on valid operands' also on the recursive division (divisors of 100 to 360 words, maximal partial remainders, all-nines divisors, exact multiples) through the hooks; non-trivial = at least one operand is a zero or an infinity, or a divisor of at least 100 words",
         "level": "proof",
     },
     "C06": {
@@ -76,7 +78,8 @@ PROPS = {
         "known_ok": ["fma-product-exponent-out-of-range"],
         "gens": [{"name": "shared", "harness": "kernharness", "quick": 40, "thorough": 300},
                  {"name": "decpoison", "harness": "kernharness", "quick": 1500, "thorough": 6000},
-                 {"name": "C09", "quick": 150, "thorough": 1000}],
+                 {"name": "C09", "quick": 150, "thorough": 1000},
+                 {"name": "C14", "quick": 400, "thorough": 2500}],
         "needs": ["apiharness", "kernharness"],
         "nontrivial": {"shared", "karatsuba", "karatsubaSqr", "long", "alias", "inexact"},
         "rule": ("premises P1-P4 of the interleaving theorem tied deterministically: operand snapshots incl. backing arrays (API programs), pool "
@@ -86,7 +89,7 @@ PROPS = {
     "C08": {
         "known_ok": ["fma-product-exponent-out-of-range"],
         "gens": [{"name": "C08", "quick": 250, "thorough": 1500}, {"name": "C12", "quick": 1500, "thorough": 6000}, {"name": "C17", "quick": 600, "thorough": 3000},
-                 {"name": "C20", "quick": 500, "thorough": 3000}, {"name": "setters", "quick": 400, "thorough": 2000}],
+                 {"name": "C20", "quick": 500, "thorough": 3000}, {"name": "setters", "quick": 800, "thorough": 3000}],
         "nontrivial": {"inexact", "range", "alias", "special"},
         "rule": ARITH_RULE + "every variable of every program state goes through the canonical-form monitor; non-trivial = step that rounds, leaves the range, aliases or involves a special value",
         "level": "proof",
@@ -94,7 +97,8 @@ PROPS = {
     "C09": {
         "known_ok": ["fma-product-exponent-out-of-range"],
         "gens": [{"name": "C09", "quick": 250, "thorough": 1500}, {"name": "setters", "quick": 600, "thorough": 4000}, {"name": "C20", "quick": 400, "thorough": 3000},
-                 {"name": "C17", "quick": 800, "thorough": 4000}, {"name": "C05", "quick": 400, "thorough": 2000}, {"name": "C12", "quick": 500, "thorough": 3000}],
+                 {"name": "C17", "quick": 800, "thorough": 4000}, {"name": "C05", "quick": 400, "thorough": 2000}, {"name": "C12", "quick": 500, "thorough": 3000},
+                 {"name": "C03", "quick": 400, "thorough": 2000}, {"name": "C14", "quick": 500, "thorough": 3000}],
         "nontrivial": {"inexact", "range", "alias", "special"},
         "rule": ARITH_RULE + "frame rule checked on Go's states and on the backing arrays up to capacity",
         "level": "proof",
